@@ -30,6 +30,15 @@ func c19HTTPScenarios(tier string) []*Scenario {
 			}
 		}
 	}
+	// a request body that cannot be rewound for the retry: the attempt fails before it is sent, nothing stays behind
+	for _, rc := range []string{"value", "cancelled-later"} {
+		for _, ec := range []string{"none", "cancel"} {
+			for _, st := range []string{"retry", "retry+timeout", "timeout+retry"} {
+				c := httpCase{bodyKind: "seeker-once", body: "hello body", reqCtx: rc, execCtx: ec, stack: st, script: scripts[1], via: "roundtripper", leakOnly: true}
+				out = append(out, &Scenario{Name: "C19/http " + c.String(), Bound: 1, Reduce: true, Leak: true, Body: c.run()})
+			}
+		}
+	}
 	for _, side := range []string{"client", "server"} {
 		for _, cx := range []string{"background", "metadata", "cancel"} {
 			for _, st := range []string{"none", "retry", "timeout", "retry+timeout"} {
